@@ -176,7 +176,9 @@ def X3(ctx):
             kind = "Schedule"
             ok = any(e[0] == "call" and pol is True and
                      ((e[1].endswith("Option::<T>::is_some") and "find(" in canon(e)) or (e[1].startswith("rt::path::") and e[1] in prog.fns))
-                     for (e, pol, v, sb) in atoms)
+                     for (e, pol, v, sb) in atoms) or \
+                any(e[0] == "discr" and "Iterator::find(" in canon(e) and not isinstance(v, tuple) and
+                    dict((x, y) for (x, y) in (e[3] or [])).get(v) == "Some" for (e, pol, v, sb) in atoms)
             expl = any(is_field(e, SCH, "exploring") and pol is True for (e, pol, v, sb) in atoms)
         if kind is None:
             ctx.bad("X3", fk, "a `return true` of step() is not tied to a branch kind", site_str(prog, fk, b), detail="unknown-arm")
@@ -441,12 +443,24 @@ def E2(ctx):
     if bfn is not None:
         ws = field_writes(prog, bk, SCH, "preemptions")
         ok = False
+        c = False
         for w in ws:
             e = rv_expr(prog, w)
-            txt = canon(e)
-            if "unwrap_or" in txt and "{closure" in txt:
+            srcs = deep_sources(prog.fns[w["fn"]].body, e)
+            # the stored count comes from prev.preemptions() when there is a previous branch, and is 0 only when there is none
+            wb = prog.fns[w["fn"]].body
+            some_subj = set()
+            for b2 in range(wb.n):
+                t2 = wb.term(b2)
+                if t2["k"] == "call" and callee_path(t2) == SCH + "::preemptions":
+                    for (ge, pol, v, sb) in guard_atoms(wb, b2):
+                        if ge[0] == "discr" and not isinstance(v, tuple) and dict((x, y) for (x, y) in (ge[3] or [])).get(v) == "Some":
+                            some_subj.add(canon(ge[1]))
+            has_call = any(x[0] == "call" and x[1] == SCH + "::preemptions" for x in srcs)
+            has_zero = any(x[0] == "const" and x[1].get("int") == 0 for x in srcs)
+            if has_call and has_zero and some_subj and _zero_only_without_prev(wb, some_subj):
                 ok = True
-        c = [k for k in prog.closures_of(bk) if any(prog.callee_key(cc) == SCH + "::preemptions" for (b, t, cc) in prog.sites(prog.ident(k)))]
+                c = True
         if ok and c:
             ctx.ok("E2", bk + ":inherit", "new branch: preemptions = prev.preemptions() or 0", [site_str(prog, bk, ws[0]["bb"])])
         else:
@@ -470,6 +484,24 @@ def E2(ctx):
             ctx.ok("E2", bk + ":initial_active", "recorded for the preemption test", [site_str(prog, bk, iw[0]["bb"])])
         else:
             ctx.bad("E2", bk, "initial_active is not recorded for new branches", bfn.loc(), detail="initial_active")
+
+
+def _zero_only_without_prev(body, some_subj):
+    """No definition of the inherited count is the literal 0 on a path where the previous branch exists: literal-0 definitions
+    (other than the default argument of unwrap_or) must lie on the None edge of the `prev` switch."""
+    for b2, blk2 in enumerate(body.blocks):
+        if blk2["cleanup"]:
+            continue
+        for st2 in blk2["stmts"]:
+            if st2["k"] != "=" or st2["lhs"]["p"] or body.locals[st2["lhs"]["l"]]["ty"] != "u8":
+                continue
+            de = body.expr_of_rvalue(st2["rv"])
+            if de[0] == "const" and de[1].get("int") == 0 and len(body.defs().get(st2["lhs"]["l"], [])) > 1:
+                on_none = any(ge[0] == "discr" and not isinstance(v, tuple) and dict((x, y) for (x, y) in (ge[3] or [])).get(v) == "None"
+                              and canon(ge[1]) in some_subj for (ge, pol, v, sb) in guard_atoms(body, b2))
+                if not on_none:
+                    return False
+    return True
 
 
 def E3(ctx):
